@@ -79,3 +79,10 @@ def numpy_seed(seed):
         yield
     finally:
         np.random.set_state(state)
+
+
+def fl(lo, hi, digits=6):
+    """Hypothesis float strategy in [lo,hi], rounded to `digits` decimals (compact JSON, stays in range)"""
+    from hypothesis import strategies as st
+    return st.floats(lo, hi, allow_nan=False, allow_infinity=False).map(
+        lambda x: min(hi, max(lo, round(x, digits))))
